@@ -61,6 +61,7 @@ func restoreRun(o *hx.Out, k int, r *prng.R, mode, lower string, cont map[string
 	b := mpt.NewBillet(root, trieMode(mode), storage.STTempStorage, dst)
 	var restoreErr string
 	positions, persists := 0, 0
+	var sched []byte // per restoration: '1' = the store was persisted just before it
 	var rec func(h []byte, path []byte)
 	rec = func(h []byte, path []byte) {
 		if restoreErr != "" {
@@ -89,6 +90,9 @@ func restoreRun(o *hx.Out, k int, r *prng.R, mode, lower string, cont map[string
 				panic(err)
 			}
 			persists++
+			sched = append(sched, '1')
+		} else {
+			sched = append(sched, '0')
 		}
 		obs := hx.Safe(func() string {
 			if err := b.RestoreHashNode(bytes.Clone(path), no.Node); err != nil {
@@ -126,16 +130,16 @@ func restoreRun(o *hx.Out, k int, r *prng.R, mode, lower string, cont map[string
 		h.fail("restore-failed", "%s", restoreErr)
 		return
 	}
-	if r.Bool() {
-		m.Persist()
-	}
 	dv := readView(dst)
 	rcMode := mode != "all"
-	h.line(fmt.Sprintf("restore %d %s", idx, strings.Join(es, ",")), "r="+hex.EncodeToString(root[:])+" "+storeObs(rcMode, view{}, dv))
+	h.line(fmt.Sprintf("restore %d %s %s", idx, strings.Join(es, ","), sched), "r="+hex.EncodeToString(root[:])+" "+storeObs(rcMode, view{}, dv))
 	h.prev, h.last = dv, dv
 	h.cont = cont
 	h.recs[idx] = &rec0{root: root, cont: cont}
 	h.heights = append(h.heights, idx)
+	if r.Bool() {
+		h.persist()
+	}
 	h.probes = pickProbes(r, g.pool)
 	o.Seen(fmt.Sprintf("restore/%s:%d:%s", mode, len(cont), root.StringLE()[:8]))
 
@@ -173,10 +177,14 @@ func restoreRun(o *hx.Out, k int, r *prng.R, mode, lower string, cont map[string
 			break
 		}
 		if mode == "gc" && r.Chance(1, 3) {
-			h.gc(idx - uint32(r.Intn(2)))
+			if r.Bool() {
+				h.gc(idx - uint32(r.Intn(2)))
+			} else {
+				h.gcl(idx - uint32(r.Intn(3)))
+			}
 		}
 		if r.Chance(1, 3) {
-			m.Persist()
+			h.persist()
 		}
 		if r.Chance(1, 6) {
 			h.reset()
